@@ -3,7 +3,9 @@
 
   Only property statements, one-line proofs from `Proofs/FieldProps.lean`, non-vacuity examples.
   Quantifiers: every grid size, every ACTNUM, every box, every region array, every element
-  kernel (hence every operation), every scalar type.
+  kernel (hence every operation), every scalar type `α` (no algebraic law is used: the
+  refinement is structural, so it holds for IEEE doubles as well as for a field), every
+  program (any number of keywords and records per section).
 -/
 import OpmVerif.Proofs.FieldProps
 
@@ -28,6 +30,11 @@ theorem region_index_spec (A : List Bool) (reg : Arr Int) (r : Int) (hl : reg.le
     IdxSpec A (regionSel reg r) (regionIndex A (compress A reg) r) :=
   regionIndex_spec A reg r hl
 
+/-- `GridDims::getIJK` and `getGlobalIndex` are inverse to each other on the grid. -/
+theorem ijk_global_bij (D : Dims) (g i j k : Nat) (hi : i < D.nx) (hj : j < D.ny) :
+    D.globalIndex (D.ijk g).1 (D.ijk g).2.1 (D.ijk g).2.2 = g ∧ D.ijk (D.globalIndex i j k) = (i, j, k) :=
+  ⟨globalIndex_ijk D g, ijk_globalIndex D i j k hi hj⟩
+
 /-- One loop of the implementation over any index list that meets its specification computes
 the compression of the map over the global grid, and rejects in exactly the same cases. -/
 theorem loop_refines {α : Type} [Scalar α] (K : Kernel α) (A : List Bool) (sel : Nat → Option Nat)
@@ -36,15 +43,140 @@ theorem loop_refines {α : Type} [Scalar α] (K : Kernel α) (A : List Bool) (se
     (refApply K A sel src tgt).map (compress A) = implApply K L (compress A src) (compress A tgt) :=
   apply_refines K A sel L hs src tgt hsrc htgt
 
-/-! Non-vacuity: a 3×2×2 grid with interior inactive cells and a proper sub-box. -/
+/-- `op_refines` (box operations: data keywords, EQUALS, ADD, MULTIPLY, MINVALUE, MAXVALUE, COPY,
+OPERATE — any kernel): `compress A (ref op g) = impl op (compress A g)`. -/
+theorem op_refines_box {α : Type} [Scalar α] (D : Dims) (A : List Bool) (K : Kernel α) (b : Box)
+    (hv : b.Valid D) (src tgt : Arr α) (hs : src.length = A.length) (ht : tgt.length = A.length) :
+    boxApply .impl D A K b (compress A src) (compress A tgt) =
+      (boxApply .ref D A K b src tgt).map (compress A) :=
+  boxApply_impl D A K b hv src tgt hs ht
+
+/-- `op_refines` (region operations: EQUALREG, ADDREG, MULTIREG, COPYREG, OPERATER). -/
+theorem op_refines_region {α : Type} [Scalar α] (A : List Bool) (K : Kernel α) (reg : Arr Int) (r : Int)
+    (hr : reg.length = A.length) (src tgt : Arr α) (hs : src.length = A.length) (ht : tgt.length = A.length) :
+    regApply .impl A K (compress A reg) r (compress A src) (compress A tgt) =
+      (regApply .ref A K reg r src tgt).map (compress A) :=
+  regApply_impl A K reg r hr src tgt hs ht
+
+/-- One keyword (with all its records, its box handling, keyword defaults, existence checks and
+unit conversion) refines, and keeps the state well-formed. -/
+theorem keyword_refines {α : Type} [RealOps α] (D : Dims) (hD : DPos D) (T : Tables α) (sec : Section)
+    (p : St α × Box) (hp : PairOK D p) (k : Kw α) :
+    (kwStep .ref D T sec p k).map cPair = kwStep .impl D T sec (cPair p) k ∧
+    ∀ q, kwStep .ref D T sec p k = some q → PairOK D q :=
+  kwStep_refines D hD T sec p hp k
+
+/-- `program_refines`: the whole `FieldProps` constructor (GRID, EDIT with its multiplier
+scratch arrays, ACTNUM update from ACTNUM/PORV with re-compression, REGIONS, PROPS, SOLUTION)
+on active-only arrays is the compression of the reference run on the global grid, for programs
+of any length; rejection coincides. -/
+theorem program_refines {α : Type} [RealOps α] (D : Dims) (hD : DPos D) (T : Tables α) (s0 : St α)
+    (hw : WF D s0) (P : Prog α) :
+    (runProg .ref D T s0 P).map cSt = runProg .impl D T (cSt s0) P :=
+  (runProg_refines D hD T s0 hw P).1
+
+/-- … hence everything the public API shows (accept/reject, final ACTNUM, for every keyword
+validity, active cells with status, global copy) is the same under both semantics. -/
+theorem observable_result_refines {α : Type} [RealOps α] (D : Dims) (hD : DPos D) (T : Tables α)
+    (A : List Bool) (hA : A.length = D.size) (P : Prog α) :
+    runObserve .ref D T A P = runObserve .impl D T A P :=
+  runObserve_refines D hD T A hA P
+
+/-- `inactive_independence`, proved per operation (hence `_partial`): the same operation on the
+same global contents under two ACTNUMs leaves the same content in every cell active in both.
+Full shape (not proved): for whole programs `P`, if `runProg .impl` succeeds under `A` and `A'`
+then every array agrees on the cells active in both final ACTNUMs.  Missing: the relational
+induction over the front end; region emptiness (a record is skipped when its region has no
+ACTIVE cell) and OPERATER's late creation of its source array make the set of existing arrays
+depend on the ACTNUM, which the invariant has to absorb.  The whole-program statement is what
+the property mode of the harness evaluates on the real code. -/
+theorem inactive_independence_partial {α : Type} [Scalar α] (K : Kernel α) (A A' : List Bool)
+    (sel : Nat → Option Nat) (L L' : List Idx) (hs : IdxSpec A sel L) (hs' : IdxSpec A' sel L')
+    (src tgt : Arr α) (hsrc : src.length = A.length) (htgt : tgt.length = A.length)
+    (hAA : A'.length = A.length) (y y' : Arr α)
+    (hy : implApply K L (compress A src) (compress A tgt) = some y)
+    (hy' : implApply K L' (compress A' src) (compress A' tgt) = some y')
+    (g : Nat) (hg : isActive A g = true) (hg' : isActive A' g = true) :
+    y[rank A g]? = y'[rank A' g]? :=
+  indep_one_op K A A' sel L L' hs hs' src tgt hsrc htgt hAA y y' hy hy' g hg hg'
+
+/-! ### The semantics the code has (pinned as the reference) -/
+
+/-- ADD / MULTIPLY / MINVALUE / MAXVALUE (and the region forms) touching an uninitialised
+ACTIVE cell reject the whole operation. -/
+theorem add_multiply_on_uninitialised_rejected {α : Type} [Scalar α] (op : ScalarOp) (hop : op ≠ .equal)
+    (x : α) (L : List Idx) (tgt : Arr α) (e : Idx) (he : e ∈ L)
+    (hu : (cellAt tgt e.a).st.hasValue = false) : implApply (scalarKernel op x) L tgt tgt = none :=
+  implApply_rejects _ L tgt tgt e he (scalar_bad_uninit op hop x e.d _ _ hu)
+
+/-- EQUALS never rejects and sets value and status `deck_value`. -/
+theorem equals_sets_deck_value {α : Type} [Scalar α] (x : α) (d : Nat) (s t : Cell α) :
+    (scalarKernel .equal x).bad d s t = false ∧ (scalarKernel .equal x).upd d s t = ⟨.deckValue, x⟩ :=
+  ⟨rfl, rfl⟩
+
+/-- MINVALUE / MAXVALUE clamp initialised cells (status kept) … -/
+theorem minvalue_maxvalue_clamp {α : Type} [Scalar α] (x : α) (d : Nat) (s t : Cell α)
+    (ht : t.st.hasValue = true) :
+    (scalarKernel .min x).upd d s t = ⟨t.st, stdMax t.v x⟩ ∧
+    (scalarKernel .max x).upd d s t = ⟨t.st, stdMin t.v x⟩ :=
+  ⟨minvalue_clamps x d s t ht, maxvalue_clamps x d s t ht⟩
+
+/-- … and never write an uninitialised cell. -/
+theorem minvalue_leaves_uninitialised {α : Type} [Scalar α] (op : ScalarOp) (hop : op ≠ .equal) (x : α)
+    (d : Nat) (s t : Cell α) (ht : t.st.hasValue = false) : (scalarKernel op x).upd d s t = t :=
+  minmax_skip_uninit op x d s t ht hop
+
+/-- A defaulted deck entry with a default value only fills uninitialised cells; an explicit
+deck value always overwrites; an empty default does nothing. -/
+theorem deck_default_only_fills_uninitialised {α : Type} [Scalar α] (deck : Arr α) (d : Nat) (s t : Cell α) :
+    ((cellAt deck d).st = .validDefault →
+      (assignKernel deck).upd d s t = if t.st = .uninit then cellAt deck d else t) ∧
+    ((cellAt deck d).st = .deckValue → (assignKernel deck).upd d s t = cellAt deck d) ∧
+    ((cellAt deck d).st = .emptyDefault → (assignKernel deck).upd d s t = t) :=
+  ⟨deck_default_fills_only_uninit deck d s t, deck_value_overwrites deck d s t, empty_default_ignored deck d s t⟩
+
+/-! ### Non-vacuity: a 3×2×2 grid with interior inactive cells, a proper sub-box, and a
+three-section program run under both semantics. -/
 
 def sampleD : Dims := ⟨3, 2, 2⟩
 def sampleA : List Bool := [true, false, true, true, true, false, false, true, true, true, false, true]
 def sampleB : Box := ⟨1, 0, 0, 2, 2, 2⟩
 
 example : sampleB.Valid sampleD := by simp [Box.Valid, sampleB, sampleD]
+example : DPos sampleD := by simp [DPos, sampleD]
 example : sampleA.length = sampleD.size := by decide
 example : indexList sampleD sampleA sampleB =
     [⟨2, 1, 1⟩, ⟨4, 3, 2⟩, ⟨7, 4, 4⟩, ⟨8, 5, 5⟩, ⟨11, 7, 7⟩] := by decide
+
+instance : RealOps Int where
+  one := 1
+  ten := 10
+  div := (· / ·)
+  pow := fun a b => a ^ b.toNat
+  log10 := id
+  log := id
+  abs := fun a => (a.natAbs : Int)
+  trunc := id
+  isZero := fun a => decide (a = 0)
+
+def sampleT : Tables Int :=
+  ⟨[("PORO", ⟨none, false, true, false, 1, 0, false⟩), ("NTG", ⟨some 1, false, false, false, 1, 0, false⟩)],
+   [("ACTNUM", some 1), ("SATNUM", some 1), ("FLUXNUM", none)]⟩
+
+def noBox : BoxItems := ⟨none, none, none, none, none, none⟩
+
+def sampleP : Prog Int :=
+  { grid := [.scalar .equal [⟨"PORO", 3, noBox⟩, ⟨"FLUXNUM", 2, ⟨some 2, some 3, none, none, none, none⟩⟩],
+             .scalar .equal [⟨"FLUXNUM", 1, ⟨some 1, some 1, none, none, none, none⟩⟩],
+             .regScalar .add [⟨"PORO", 4, 2, some "F"⟩],
+             .operate [⟨"NTG", noBox, "MULTA", "PORO", 2, 1⟩]],
+    edit := [], props := [],
+    regions := [.box ⟨some 1, some 2, some 1, some 1, some 2, some 2⟩, .dataI "SATNUM" [⟨.deckValue, 7⟩, ⟨.deckValue, 8⟩]],
+    solution := [] }
+
+-- both semantics accept the sample program and show the same result
+example : (runObserve .impl sampleD sampleT sampleA sampleP).isSome = true := by decide +kernel
+example : runObserve .ref sampleD sampleT sampleA sampleP = runObserve .impl sampleD sampleT sampleA sampleP := by
+  decide +kernel
 
 end OpmVerif.Props.C12
